@@ -96,7 +96,8 @@ impl bridged::Bridged for Cust {
     fn br_sudo(&self, ctx: SudoCtx, a: u64) -> Result<Response, Echo> {
         self.calls.hit(3);
         ctx.deps.storage.set(b"k", &[3]);
-        Ok(Response::new().set_data(vec![a as u8, ctx.env.block.height as u8]))
+        // no sub-messages, but an event and an attribute: they must survive the bridge as well
+        Ok(Response::new().add_event(cosmwasm_std::Event::new("e")).add_attribute("k", "v").set_data(vec![a as u8, ctx.env.block.height as u8]))
     }
     fn br_query(&self, ctx: QueryCtx, a: u64) -> Result<u64, Echo> {
         self.calls.hit(4);
@@ -179,13 +180,16 @@ pub mod proofs {
         let msg: sv::ContractSudoMsg = bridged::sv::SudoMsg::BrSudo { a: x }.into();
         let r = core::mem::ManuallyDrop::new(msg.dispatch(&c, (deps, env(h))));
         match &*r {
-            Ok(resp) => match &resp.data {
-                Some(b) => {
-                    let b = b.as_slice();
-                    assert!(b.len() == 2 && b[0] == x as u8 && b[1] == h as u8);
+            Ok(resp) => {
+                match &resp.data {
+                    Some(b) => {
+                        let b = b.as_slice();
+                        assert!(b.len() == 2 && b[0] == x as u8 && b[1] == h as u8);
+                    }
+                    None => assert!(false),
                 }
-                None => assert!(false),
-            },
+                assert!(resp.messages.is_empty() && resp.events.len() == 1 && resp.attributes.len() == 1);
+            }
             _ => assert!(false),
         }
         assert!(c.calls.only(3));
